@@ -163,6 +163,16 @@ def RuleOK (s : Str) (ms : List M) (tr un : List Seg) : Prop :=
   MapInRange s.length r.sm ∧ MapInRange s.length r.em ∧
   Attributes s r.out r.sm r.em (provRule s tr un ms 0)
 
+/-- The Python expression `next((m.start(g) for _, g in tracked[i+1:] if g and m.start(g) >= pos), m.end())`
+read literally: the list of starts of the later group references with a non-zero number that took part
+in the match and start at or after `pos`; its first element, else the end of the match.  (Declarative
+reading of `Verif.C13.nextStart`, which the provenance semantics `provTracked` uses; `nextStart_spec`.) -/
+def nextStartSpec (m : M) (pos : Nat) (segs : List Seg) : Nat :=
+  ((segs.filterMap (fun seg =>
+      match seg with
+      | .grp g => if g ≠ 0 then (m.span g).bind (fun sp => if pos ≤ sp.1 then some sp.1 else none) else none
+      | .lit _ => none)).head?).getD m.e
+
 /-- the separator matches of the tokenizer: ordered, non-overlapping, inside the string. -/
 def ValidSeps (n : Nat) : Nat → List (Nat × Nat) → Prop
   | _, [] => True
@@ -276,6 +286,57 @@ def scanLnk (s : Str) : Option (Lnk × Str) :=
     | _ => none
   | _ => none
 
+/-- `\d+` then the continuation. -/
+def digitsThen (s : Str) (k : Str → Bool) : Bool :=
+  let ds := s.takeWhile Char.isDigit
+  !ds.isEmpty && k (s.dropWhile Char.isDigit)
+
+/-- `[eE][-+]?\d+` then the continuation (the optional sign is given back when no digit follows it). -/
+def expThen (s : Str) (k : Str → Bool) : Bool :=
+  match s with
+  | c :: r =>
+    if c = 'e' || c = 'E' then
+      (match r with
+       | d :: r' => (d = '-' || d = '+') && digitsThen r' k
+       | [] => false) || digitsThen r k
+    else false
+  | [] => false
+
+/-- `{float}` = `-?(0|[1-9]\d*)(\.\d+[eE][-+]?|\.|[eE][-+]?)\d+` then the continuation; the three
+alternatives of the middle group are tried in the regex's order. -/
+def floatThen (s : Str) (k : Str → Bool) : Bool :=
+  let s1 := match s with | '-' :: r => r | _ => s
+  let afterInt : Option Str := match s1 with
+    | '0' :: r => some r
+    | c :: r => if c.isDigit then some (r.dropWhile Char.isDigit) else none
+    | [] => none
+  match afterInt with
+  | none => false
+  | some r =>
+    (match r with
+     | '.' :: r1 =>
+       -- `\.\d+[eE][-+]?` `\d+`   |   `\.` `\d+`
+       (let ds := r1.takeWhile Char.isDigit
+        !ds.isEmpty && expThen (r1.dropWhile Char.isDigit) k) || digitsThen r1 k
+     | _ => false) || expThen r k
+
+/-- `(?:{string}\s+{float}\s*)+` followed by `\s*\)`: does the optional pos part of `_yy_re` match here? -/
+def posThenClose : Nat → Str → Bool
+  | 0, _ => false
+  | f + 1, s =>
+    match s with
+    | '"' :: r =>
+      match scanDQ r with
+      | none => false
+      | some (_, r1) =>
+        match r1 with
+        | c :: _ =>
+          isWs c && floatThen (skipWs r1) (fun r2 =>
+            let r3 := skipWs r2
+            (match r3 with | ')' :: _ => true | _ => false) || posThenClose f r3)
+        | [] => false
+    | _ => false
+
 inductive MT where
   | nomatch                          -- `_yy_re` does not match at this position
   | unmodelled                       -- it matches a token with lrules ≠ ["null"] or with pos tags
@@ -313,7 +374,10 @@ def matchTok (s : Str) : MT :=
       if lrules = ["null".toList] then
         .tok ⟨id, st, en, lnk, paths, unescapeDQ form, surface.map unescapeDQ, ipos⟩ r16
       else .unmodelled
-    | ',' :: _ => .unmodelled
+    | ',' :: r16 =>
+      -- `(?:{comma}(?P<pos>…))?\s*\)`: a token with pos tags (outside the modelled shapes) only if that
+      -- optional part really matches up to the closing parenthesis; otherwise the regex does not match here
+      if posThenClose (r16.length + 1) (skipWs r16) then .unmodelled else .nomatch
     | _ => .nomatch
   | _ => .nomatch
 
